@@ -30,7 +30,7 @@ def is_token(b):
 class Msg:
     __slots__ = ("status", "reason", "start", "end", "method", "target", "version",
                  "headers", "body", "trailers", "framing", "no_follow", "body_unpinned",
-                 "persistent_sure", "either", "head_complete", "head_end", "nchunks")
+                 "persistent_sure", "either", "head_complete", "head_end", "nchunks", "body_started")
 
     def __init__(self, start):
         self.status = "ok"
@@ -50,6 +50,7 @@ class Msg:
         self.head_complete = False
         self.head_end = None
         self.nchunks = 0
+        self.body_started = False
 
     def rej(self, reason):
         self.status = "reject"
@@ -263,6 +264,7 @@ def parse_one(stream, pos, header_map="drop"):
 
     if chunked:
         m.framing = "chunked"
+        m.body_started = True       # the head (framing headers included) is valid; what follows is body syntax
         return _chunked(stream, pos, m, header_map)
     if cl_lines:
         m.framing = "cl"
